@@ -31,10 +31,10 @@ def spec_cb(eng, PD1, PD2, n1, n2, theta):
     return m_cityblock(_sorted(V1), _sorted(V2))
 
 
-def sw_contract():
+def sw_contract(dtypes=("float", "float")):
     def make_args(eng):
-        PD1, n1 = sym_diagram(eng, "PD1")
-        PD2, n2 = sym_diagram(eng, "PD2")
+        PD1, n1 = sym_diagram(eng, "PD1", dtype=dtypes[0])
+        PD2, n2 = sym_diagram(eng, "PD2", dtype=dtypes[1])
         M = eng.fresh_int("M", lo=1)
         CB = z3.Function("CBspec", z3.IntSort(), z3.RealSort())
         g = {"n1": n1, "n2": n2, "M": M, "CB": CB, "PD1": PD1, "PD2": PD2}
@@ -86,8 +86,8 @@ def sw_contract():
 
     return Contract(MOD, "sliced_wasserstein", make_args, ensures=ensures, definedness="P",
                     loops={0: LoopContract("for i in", inv, cls="P")},
-                    hints=[("PD_delta2 = ", hint_delta)])
+                    hints=[("PD_delta2 = ", hint_delta)], variant="" if dtypes == ("float", "float") else "dtypes=%s,%s" % dtypes)
 
 
 def all_contracts(tier):
-    return [sw_contract()], {}
+    return [sw_contract(), sw_contract(("int", "int"))], {}
